@@ -3,9 +3,12 @@ import Mathlib.Tactic.Linarith
 import Mathlib.Logic.Basic
 /-
   Theory of the asynchronous process model (Model/Async.lean):
+  * everything is stated for an arbitrary channel capacity `cap` (unbounded, bounded, or zero =
+    rendezvous);
   * steps of different processes commute (diamond);
   * the projections of a choreography can always be executed to completion, ending in the
-    sequential result with empty channels;
+    sequential result with empty channels — the canonical schedule only ever sends into an empty
+    channel whose receiver is waiting, so it is enabled at every capacity;
   * hence (random-descent argument) *every* interleaving terminates, never deadlocks, and ends in
     that same state.
   Core Lean + a few Mathlib tactics.
@@ -38,6 +41,78 @@ theorem upd2_comm {β : Type} (c : Nat → Nat → β) (i j k l : Nat) (v w : β
 theorem upd2_upd2 {β : Type} (c : Nat → Nat → β) (i j : Nat) (v w : β) : upd2 (upd2 c i j v) i j w = upd2 c i j w := by
   funext a b; simp only [upd2]; by_cases h1 : a = i ∧ b = j <;> simp [h1]
 
+/-! ### enabledness of sends -/
+
+theorem room_mono (cap : Option Nat) (m n : Nat) (h : m ≤ n) (hr : room cap n = true) : room cap m = true := by
+  cases cap with
+  | none => rfl
+  | some c => simp only [room, decide_eq_true_eq] at *; omega
+
+variable (cap : Option Nat)
+
+/-- a send that is enabled stays enabled when another process takes a step -/
+theorem sendOk_preserved (s b : Sys σ Msg) (i j k : Nat) (hik : i ≠ k) (hk : stepP cap s k = some b)
+    (h : sendOk cap s i j = true) : sendOk cap b i j = true := by
+  unfold stepP at hk
+  cases hpk : s.prog k with
+  | nil => simp [hpk] at hk
+  | cons ak rk =>
+    simp only [hpk] at hk
+    by_cases hjk : j = k
+    · -- the receiver itself moves: it was not waiting for `i` with an empty channel (it could not have moved), so there was room
+      subst hjk
+      cases ak with
+      | loc f =>
+        simp only [Option.some.injEq] at hk; subst hk
+        simp only [sendOk, hpk, headIsRecvFrom, Bool.and_false, Bool.or_false] at h
+        simp [sendOk, h]
+      | send l mk =>
+        by_cases hok : sendOk cap s j l = true
+        · simp only [hok, if_true, Option.some.injEq] at hk; subst hk
+          simp only [sendOk, hpk, headIsRecvFrom, Bool.and_false, Bool.or_false] at h
+          have : upd2 s.chan j l (s.chan j l ++ [mk (s.store j)]) i j = s.chan i j :=
+            upd2_other _ _ _ _ _ _ (fun hh => hik hh.1)
+          simp [sendOk, this, h]
+        · simp [hok] at hk
+      | recv l uf =>
+        cases hc : s.chan l j with
+        | nil => simp [hc] at hk
+        | cons m ms =>
+          simp only [hc, Option.some.injEq] at hk; subst hk
+          by_cases hli : l = i
+          · subst hli
+            have hroom : room cap (s.chan l j).length = true := by
+              simp only [sendOk, hc, List.isEmpty_cons, Bool.false_and, Bool.or_false] at h
+              simpa [hc] using h
+            have : room cap ms.length = true := room_mono cap _ _ (by simp [hc]) hroom
+            simp [sendOk, this]
+          · have hroom : room cap (s.chan i j).length = true := by
+              simp only [sendOk, hpk, headIsRecvFrom] at h
+              have : (l == i) = false := by simpa using hli
+              simpa [this] using h
+            have : upd2 s.chan l j ms i j = s.chan i j := upd2_other _ _ _ _ _ _ (fun hh => hli hh.1.symm)
+            simp [sendOk, this, hroom]
+    · -- somebody else moves: neither the channel `i → j` nor `j`'s program changes
+      have hprog : ∀ r, upd s.prog k r j = s.prog j := fun r => upd_other _ _ _ _ hjk
+      cases ak with
+      | loc f =>
+        simp only [Option.some.injEq] at hk; subst hk
+        simpa [sendOk, hprog] using h
+      | send l mk =>
+        by_cases hok : sendOk cap s k l = true
+        · simp only [hok, if_true, Option.some.injEq] at hk; subst hk
+          have : upd2 s.chan k l (s.chan k l ++ [mk (s.store k)]) i j = s.chan i j :=
+            upd2_other _ _ _ _ _ _ (fun hh => hik hh.1)
+          simpa [sendOk, hprog, this] using h
+        · simp [hok] at hk
+      | recv l uf =>
+        cases hc : s.chan l k with
+        | nil => simp [hc] at hk
+        | cons m ms =>
+          simp only [hc, Option.some.injEq] at hk; subst hk
+          have : upd2 s.chan l k ms i j = s.chan i j := upd2_other _ _ _ _ _ _ (fun hh => hjk hh.2)
+          simpa [sendOk, hprog, this] using h
+
 /-! ### a choreography can be executed to completion -/
 
 theorem proj_nil (p : Nat) : proj ([] : List (GEv σ Msg)) p = [] := rfl
@@ -52,13 +127,13 @@ def WellFormed : List (GEv σ Msg) → Prop
 def doneSys (st : Nat → σ) : Sys σ Msg := { prog := fun _ => [], store := st, chan := fun _ _ => [] }
 
 theorem canonical_complete (G : List (GEv σ Msg)) (hw : WellFormed G) (st : Nat → σ) :
-    runSched (initSys G st) (canonicalSched G) = some (doneSys (seqRun G st)) := by
+    runSched cap (initSys G st) (canonicalSched G) = some (doneSys (seqRun G st)) := by
   induction G generalizing st with
   | nil => rfl
   | cons e rest ih =>
     cases e with
     | loc i f =>
-      have hstep : stepP (initSys (GEv.loc i f :: rest) st) i = some (initSys rest (upd st i (f (st i)))) := by
+      have hstep : stepP cap (initSys (GEv.loc i f :: rest) st) i = some (initSys rest (upd st i (f (st i)))) := by
         simp only [stepP, initSys, proj, if_true]
         congr 1
         simp only [Sys.mk.injEq, and_true]
@@ -72,12 +147,12 @@ theorem canonical_complete (G : List (GEv σ Msg)) (hw : WellFormed G) (st : Nat
       obtain ⟨hij, hw'⟩ := hw
       have hji : j ≠ i := fun h => hij h.symm
       -- the send step
-      have h1 : stepP (initSys (GEv.comm i j mk uf :: rest) st) i
+      have h1 : stepP cap (initSys (GEv.comm i j mk uf :: rest) st) i
           = some { prog := upd (proj (GEv.comm i j mk uf :: rest)) i (proj rest i), store := st,
                    chan := upd2 (fun _ _ => []) i j [mk (st i)] } := by
-        simp [stepP, initSys, proj]
+        simp [stepP, initSys, proj, sendOk, headIsRecvFrom, hji]
       -- then the receive step
-      have h2 : stepP (Sys.mk (upd (proj (GEv.comm i j mk uf :: rest)) i (proj rest i)) st
+      have h2 : stepP cap (Sys.mk (upd (proj (GEv.comm i j mk uf :: rest)) i (proj rest i)) st
             (upd2 (fun _ _ => ([] : List Msg)) i j [mk (st i)])) j
           = some (initSys rest (upd st j (uf (st j) (mk (st i))))) := by
         have hp : upd (proj (GEv.comm i j mk uf :: rest)) i (proj rest i) j = Act.recv i uf :: proj rest j := by
@@ -100,9 +175,13 @@ theorem canonical_complete (G : List (GEv σ Msg)) (hw : WellFormed G) (st : Nat
 
 /-! ### steps of different processes commute -/
 
-theorem diamond (s a b : Sys σ Msg) (i j : Nat) (hij : i ≠ j) (hi : stepP s i = some a) (hj : stepP s j = some b) :
-    ∃ c, stepP a j = some c ∧ stepP b i = some c := by
+theorem diamond (s a b : Sys σ Msg) (i j : Nat) (hij : i ≠ j) (hi : stepP cap s i = some a) (hj : stepP cap s j = some b) :
+    ∃ c, stepP cap a j = some c ∧ stepP cap b i = some c := by
   have hji : j ≠ i := fun h => hij h.symm
+  have hpres_i : ∀ t, sendOk cap s i t = true → sendOk cap b i t = true :=
+    fun t h => sendOk_preserved cap s b i t j hij hj h
+  have hpres_j : ∀ t, sendOk cap s j t = true → sendOk cap a j t = true :=
+    fun t h => sendOk_preserved cap s a j t i hji hi h
   unfold stepP at hi hj
   cases hpi : s.prog i with
   | nil => simp [hpi] at hi
@@ -120,14 +199,17 @@ theorem diamond (s a b : Sys σ Msg) (i j : Nat) (hij : i ≠ j) (hi : stepP s i
         | loc fj =>
           simp only [Option.some.injEq] at hj; subst hj
           refine ⟨{ prog := upd (upd s.prog i ri) j rj, store := upd (upd s.store i (fi (s.store i))) j (fj (s.store j)), chan := s.chan }, ?_, ?_⟩
-          · simp [stepP, upd_other _ _ _ _ hji, hpj]
-          · simp [stepP, upd_other _ _ _ _ hij, hpi, upd_comm _ _ _ _ _ hij]
+          · simp [stepP, upd_other _ _ _ _ hji, hpj] <;> first | assumption | exact hpres_i _ ‹_› | exact hpres_j _ ‹_›
+          · simp [stepP, upd_other _ _ _ _ hij, hpi, upd_comm _ _ _ _ _ hij] <;> first | assumption | exact hpres_i _ ‹_› | exact hpres_j _ ‹_›
         | send k mk =>
-          simp only [Option.some.injEq] at hj; subst hj
+          by_cases hokj : sendOk cap s j k = true
+          case neg => simp [hokj] at hj
+          simp only [hokj, if_true, Option.some.injEq] at hj; subst hj
+          have hokj' := hpres_j _ hokj
           refine ⟨{ prog := upd (upd s.prog i ri) j rj, store := upd s.store i (fi (s.store i)),
                     chan := upd2 s.chan j k (s.chan j k ++ [mk (s.store j)]) }, ?_, ?_⟩
-          · simp [stepP, upd_other _ _ _ _ hji, hpj]
-          · simp [stepP, upd_other _ _ _ _ hij, hpi, upd_comm _ _ _ _ _ hij]
+          · simp [stepP, upd_other _ _ _ _ hji, hpj] <;> first | assumption | exact hpres_i _ ‹_› | exact hpres_j _ ‹_›
+          · simp [stepP, upd_other _ _ _ _ hij, hpi, upd_comm _ _ _ _ _ hij] <;> first | assumption | exact hpres_i _ ‹_› | exact hpres_j _ ‹_›
         | recv k uf =>
           cases hc : s.chan k j with
           | nil => simp [hc] at hj
@@ -135,29 +217,34 @@ theorem diamond (s a b : Sys σ Msg) (i j : Nat) (hij : i ≠ j) (hi : stepP s i
             simp only [hc, Option.some.injEq] at hj; subst hj
             refine ⟨{ prog := upd (upd s.prog i ri) j rj, store := upd (upd s.store i (fi (s.store i))) j (uf (s.store j) m),
                       chan := upd2 s.chan k j ms }, ?_, ?_⟩
-            · simp [stepP, upd_other _ _ _ _ hji, hpj, hc]
-            · simp [stepP, upd_other _ _ _ _ hij, hpi, upd_comm _ _ _ _ _ hij]
+            · simp [stepP, upd_other _ _ _ _ hji, hpj, hc] <;> first | assumption | exact hpres_i _ ‹_› | exact hpres_j _ ‹_›
+            · simp [stepP, upd_other _ _ _ _ hij, hpi, upd_comm _ _ _ _ _ hij] <;> first | assumption | exact hpres_i _ ‹_› | exact hpres_j _ ‹_›
       | send ki mki =>
-        simp only [Option.some.injEq] at hi
+        by_cases hoki : sendOk cap s i ki = true
+        case neg => simp [hoki] at hi
+        simp only [hoki, if_true, Option.some.injEq] at hi
         subst hi
         cases aj with
         | loc fj =>
           simp only [Option.some.injEq] at hj; subst hj
           refine ⟨{ prog := upd (upd s.prog i ri) j rj, store := upd s.store j (fj (s.store j)),
                     chan := upd2 s.chan i ki (s.chan i ki ++ [mki (s.store i)]) }, ?_, ?_⟩
-          · simp [stepP, upd_other _ _ _ _ hji, hpj]
-          · simp [stepP, upd_other _ _ _ _ hij, hpi, upd_comm _ _ _ _ _ hij]
+          · simp [stepP, upd_other _ _ _ _ hji, hpj] <;> first | assumption | exact hpres_i _ ‹_› | exact hpres_j _ ‹_›
+          · simp [stepP, upd_other _ _ _ _ hij, hpi, upd_comm _ _ _ _ _ hij] <;> first | assumption | exact hpres_i _ ‹_› | exact hpres_j _ ‹_›
         | send kj mkj =>
-          simp only [Option.some.injEq] at hj; subst hj
+          by_cases hokj : sendOk cap s j kj = true
+          case neg => simp [hokj] at hj
+          simp only [hokj, if_true, Option.some.injEq] at hj; subst hj
+          have hokj' := hpres_j _ hokj
           have hne : ¬ (i = j ∧ ki = kj) := fun h => hij h.1
           refine ⟨{ prog := upd (upd s.prog i ri) j rj, store := s.store,
                     chan := upd2 (upd2 s.chan i ki (s.chan i ki ++ [mki (s.store i)])) j kj (s.chan j kj ++ [mkj (s.store j)]) }, ?_, ?_⟩
           · have : upd2 s.chan i ki (s.chan i ki ++ [mki (s.store i)]) j kj = s.chan j kj :=
               upd2_other _ _ _ _ _ _ (fun h => hji h.1)
-            simp [stepP, upd_other _ _ _ _ hji, hpj, this]
+            simp [stepP, upd_other _ _ _ _ hji, hpj, this] <;> first | assumption | exact hpres_i _ ‹_› | exact hpres_j _ ‹_›
           · have : upd2 s.chan j kj (s.chan j kj ++ [mkj (s.store j)]) i ki = s.chan i ki :=
               upd2_other _ _ _ _ _ _ (fun h => hij h.1)
-            simp [stepP, upd_other _ _ _ _ hij, hpi, this, upd_comm _ _ _ _ _ hij, upd2_comm _ _ _ _ _ _ _ hne]
+            simp [stepP, upd_other _ _ _ _ hij, hpi, this, upd_comm _ _ _ _ _ hij, upd2_comm _ _ _ _ _ _ _ hne] <;> first | assumption | exact hpres_i _ ‹_› | exact hpres_j _ ‹_›
         | recv kj uf =>
           cases hc : s.chan kj j with
           | nil => simp [hc] at hj
@@ -168,17 +255,17 @@ theorem diamond (s a b : Sys σ Msg) (i j : Nat) (hij : i ≠ j) (hi : stepP s i
               obtain ⟨rfl, rfl⟩ := hsame
               refine ⟨{ prog := upd (upd s.prog kj ri) j rj, store := upd s.store j (uf (s.store j) m),
                         chan := upd2 s.chan kj j (ms ++ [mki (s.store kj)]) }, ?_, ?_⟩
-              · simp [stepP, upd_other _ _ _ _ hji, hpj, hc, upd2_upd2]
-              · simp [stepP, upd_other _ _ _ _ hij, hpi, upd_comm _ _ _ _ _ hij, upd2_upd2]
+              · simp [stepP, upd_other _ _ _ _ hji, hpj, hc, upd2_upd2] <;> first | assumption | exact hpres_i _ ‹_› | exact hpres_j _ ‹_›
+              · simp [stepP, upd_other _ _ _ _ hij, hpi, upd_comm _ _ _ _ _ hij, upd2_upd2] <;> first | assumption | exact hpres_i _ ‹_› | exact hpres_j _ ‹_›
             · have hne : ¬ (i = kj ∧ ki = j) := fun h => hsame ⟨h.1.symm, h.2.symm⟩
               refine ⟨{ prog := upd (upd s.prog i ri) j rj, store := upd s.store j (uf (s.store j) m),
                         chan := upd2 (upd2 s.chan i ki (s.chan i ki ++ [mki (s.store i)])) kj j ms }, ?_, ?_⟩
               · have : upd2 s.chan i ki (s.chan i ki ++ [mki (s.store i)]) kj j = s.chan kj j :=
                   upd2_other _ _ _ _ _ _ (fun h => hsame ⟨h.1, h.2⟩)
-                simp [stepP, upd_other _ _ _ _ hji, hpj, this, hc]
+                simp [stepP, upd_other _ _ _ _ hji, hpj, this, hc] <;> first | assumption | exact hpres_i _ ‹_› | exact hpres_j _ ‹_›
               · have : upd2 s.chan kj j ms i ki = s.chan i ki :=
                   upd2_other _ _ _ _ _ _ (fun h => hsame ⟨h.1.symm, h.2.symm⟩)
-                simp [stepP, upd_other _ _ _ _ hij, hpi, this, upd_comm _ _ _ _ _ hij, upd2_comm _ _ _ _ _ _ _ hne]
+                simp [stepP, upd_other _ _ _ _ hij, hpi, this, upd_comm _ _ _ _ _ hij, upd2_comm _ _ _ _ _ _ _ hne] <;> first | assumption | exact hpres_i _ ‹_› | exact hpres_j _ ‹_›
       | recv ki usei =>
         cases hci : s.chan ki i with
         | nil => simp [hci] at hi
@@ -190,25 +277,28 @@ theorem diamond (s a b : Sys σ Msg) (i j : Nat) (hij : i ≠ j) (hi : stepP s i
             simp only [Option.some.injEq] at hj; subst hj
             refine ⟨{ prog := upd (upd s.prog i ri) j rj, store := upd (upd s.store i (usei (s.store i) mi)) j (fj (s.store j)),
                       chan := upd2 s.chan ki i msi }, ?_, ?_⟩
-            · simp [stepP, upd_other _ _ _ _ hji, hpj]
-            · simp [stepP, upd_other _ _ _ _ hij, hpi, hci, upd_comm _ _ _ _ _ hij]
+            · simp [stepP, upd_other _ _ _ _ hji, hpj] <;> first | assumption | exact hpres_i _ ‹_› | exact hpres_j _ ‹_›
+            · simp [stepP, upd_other _ _ _ _ hij, hpi, hci, upd_comm _ _ _ _ _ hij] <;> first | assumption | exact hpres_i _ ‹_› | exact hpres_j _ ‹_›
           | send kj mkj =>
-            simp only [Option.some.injEq] at hj; subst hj
+            by_cases hokj : sendOk cap s j kj = true
+            case neg => simp [hokj] at hj
+            simp only [hokj, if_true, Option.some.injEq] at hj; subst hj
+            have hokj' := hpres_j _ hokj
             by_cases hsame : ki = j ∧ i = kj
             · obtain ⟨rfl, rfl⟩ := hsame
               refine ⟨{ prog := upd (upd s.prog i ri) ki rj, store := upd s.store i (usei (s.store i) mi),
                         chan := upd2 s.chan ki i (msi ++ [mkj (s.store ki)]) }, ?_, ?_⟩
-              · simp [stepP, upd_other _ _ _ _ hji, hpj, upd2_upd2]
-              · simp [stepP, upd_other _ _ _ _ hij, hpi, hci, upd_comm _ _ _ _ _ hij, upd2_upd2]
+              · simp [stepP, upd_other _ _ _ _ hji, hpj, upd2_upd2] <;> first | assumption | exact hpres_i _ ‹_› | exact hpres_j _ ‹_›
+              · simp [stepP, upd_other _ _ _ _ hij, hpi, hci, upd_comm _ _ _ _ _ hij, upd2_upd2] <;> first | assumption | exact hpres_i _ ‹_› | exact hpres_j _ ‹_›
             · have hne : ¬ (ki = j ∧ i = kj) := hsame
               refine ⟨{ prog := upd (upd s.prog i ri) j rj, store := upd s.store i (usei (s.store i) mi),
                         chan := upd2 (upd2 s.chan ki i msi) j kj (s.chan j kj ++ [mkj (s.store j)]) }, ?_, ?_⟩
               · have : upd2 s.chan ki i msi j kj = s.chan j kj :=
                   upd2_other _ _ _ _ _ _ (fun h => hsame ⟨h.1.symm, h.2.symm⟩)
-                simp [stepP, upd_other _ _ _ _ hji, hpj, this]
+                simp [stepP, upd_other _ _ _ _ hji, hpj, this] <;> first | assumption | exact hpres_i _ ‹_› | exact hpres_j _ ‹_›
               · have : upd2 s.chan j kj (s.chan j kj ++ [mkj (s.store j)]) ki i = s.chan ki i :=
                   upd2_other _ _ _ _ _ _ (fun h => hsame ⟨h.1, h.2⟩)
-                simp [stepP, upd_other _ _ _ _ hij, hpi, this, hci, upd_comm _ _ _ _ _ hij, upd2_comm _ _ _ _ _ _ _ hne]
+                simp [stepP, upd_other _ _ _ _ hij, hpi, this, hci, upd_comm _ _ _ _ _ hij, upd2_comm _ _ _ _ _ _ _ hne] <;> first | assumption | exact hpres_i _ ‹_› | exact hpres_j _ ‹_›
           | recv kj usej =>
             cases hcj : s.chan kj j with
             | nil => simp [hcj] at hj
@@ -220,23 +310,23 @@ theorem diamond (s a b : Sys σ Msg) (i j : Nat) (hij : i ≠ j) (hi : stepP s i
                         chan := upd2 (upd2 s.chan ki i msi) kj j msj }, ?_, ?_⟩
               · have : upd2 s.chan ki i msi kj j = s.chan kj j :=
                   upd2_other _ _ _ _ _ _ (fun h => hji h.2)
-                simp [stepP, upd_other _ _ _ _ hji, hpj, this, hcj]
+                simp [stepP, upd_other _ _ _ _ hji, hpj, this, hcj] <;> first | assumption | exact hpres_i _ ‹_› | exact hpres_j _ ‹_›
               · have : upd2 s.chan kj j msj ki i = s.chan ki i :=
                   upd2_other _ _ _ _ _ _ (fun h => hij h.2)
-                simp [stepP, upd_other _ _ _ _ hij, hpi, this, hci, upd_comm _ _ _ _ _ hij, upd2_comm _ _ _ _ _ _ _ hne]
+                simp [stepP, upd_other _ _ _ _ hij, hpi, this, hci, upd_comm _ _ _ _ _ hij, upd2_comm _ _ _ _ _ _ _ hne] <;> first | assumption | exact hpres_i _ ‹_› | exact hpres_j _ ‹_›
 
 /-! ### random descent: one complete execution ⇒ every execution can be completed to the same state -/
 
 /-- a state in which every program is empty -/
 def Finished (t : Sys σ Msg) : Prop := ∀ i, t.prog i = []
 
-theorem finished_no_step (t : Sys σ Msg) (h : Finished t) (i : Nat) : stepP t i = none := by
+theorem finished_no_step (t : Sys σ Msg) (h : Finished t) (i : Nat) : stepP cap t i = none := by
   simp [stepP, h i]
 
 private theorem descent_step (t : Sys σ Msg) (ht : Finished t) :
-    ∀ (L : Nat) (s : Sys σ Msg) (sched : List Nat), sched.length = L → runSched s sched = some t →
-      ∀ (i : Nat) (s' : Sys σ Msg), stepP s i = some s' →
-        ∃ sched', sched'.length + 1 = L ∧ runSched s' sched' = some t := by
+    ∀ (L : Nat) (s : Sys σ Msg) (sched : List Nat), sched.length = L → runSched cap s sched = some t →
+      ∀ (i : Nat) (s' : Sys σ Msg), stepP cap s i = some s' →
+        ∃ sched', sched'.length + 1 = L ∧ runSched cap s' sched' = some t := by
   intro L
   induction L with
   | zero =>
@@ -245,7 +335,7 @@ private theorem descent_step (t : Sys σ Msg) (ht : Finished t) :
     subst this
     simp only [runSched, Option.some.injEq] at hr
     subst hr
-    rw [finished_no_step s ht i] at hs
+    rw [finished_no_step cap s ht i] at hs
     exact absurd hs (by simp)
   | succ L ih =>
     intro s sched hl hr i s' hs
@@ -254,7 +344,7 @@ private theorem descent_step (t : Sys σ Msg) (ht : Finished t) :
     | cons j rest =>
       simp only [List.length_cons, Nat.add_right_cancel_iff] at hl
       simp only [runSched] at hr
-      cases hsj : stepP s j with
+      cases hsj : stepP cap s j with
       | none => simp [hsj] at hr
       | some s1 =>
         simp only [hsj] at hr
@@ -264,7 +354,7 @@ private theorem descent_step (t : Sys σ Msg) (ht : Finished t) :
           simp only [Option.some.injEq] at hsj
           subst hsj
           exact ⟨rest, by omega, hr⟩
-        · obtain ⟨c, hc1, hc2⟩ := diamond s s' s1 i j hij hs hsj
+        · obtain ⟨c, hc1, hc2⟩ := diamond cap s s' s1 i j hij hs hsj
           obtain ⟨sched'', hl'', hr''⟩ := ih s1 rest hl hr i c hc2
           refine ⟨j :: sched'', by simp; omega, ?_⟩
           simp only [runSched, hc1]
@@ -272,9 +362,9 @@ private theorem descent_step (t : Sys σ Msg) (ht : Finished t) :
 
 /-- if one execution from `s` completes in `t`, every execution from `s` can be continued to `t`,
     and the total number of steps is always the same -/
-theorem random_descent (t : Sys σ Msg) (ht : Finished t) (s : Sys σ Msg) (sched : List Nat) (hr : runSched s sched = some t)
-    (sched' : List Nat) (u : Sys σ Msg) (hu : runSched s sched' = some u) :
-    ∃ sched'', runSched u sched'' = some t ∧ sched'.length + sched''.length = sched.length := by
+theorem random_descent (t : Sys σ Msg) (ht : Finished t) (s : Sys σ Msg) (sched : List Nat) (hr : runSched cap s sched = some t)
+    (sched' : List Nat) (u : Sys σ Msg) (hu : runSched cap s sched' = some u) :
+    ∃ sched'', runSched cap u sched'' = some t ∧ sched'.length + sched''.length = sched.length := by
   induction sched' generalizing s sched with
   | nil =>
     simp only [runSched, Option.some.injEq] at hu
@@ -282,52 +372,52 @@ theorem random_descent (t : Sys σ Msg) (ht : Finished t) (s : Sys σ Msg) (sche
     exact ⟨sched, hr, by simp⟩
   | cons i rest ih =>
     simp only [runSched] at hu
-    cases hsi : stepP s i with
+    cases hsi : stepP cap s i with
     | none => simp [hsi] at hu
     | some s' =>
       simp only [hsi] at hu
-      obtain ⟨sc, hl, hrc⟩ := descent_step t ht sched.length s sched rfl hr i s' hsi
+      obtain ⟨sc, hl, hrc⟩ := descent_step cap t ht sched.length s sched rfl hr i s' hsi
       obtain ⟨sched'', h1, h2⟩ := ih s' sc hrc hu
       exact ⟨sched'', h1, by simp only [List.length_cons]; omega⟩
 
 /-- **termination**: no execution is longer than the complete one -/
-theorem terminates (t : Sys σ Msg) (ht : Finished t) (s : Sys σ Msg) (sched : List Nat) (hr : runSched s sched = some t)
-    (sched' : List Nat) (u : Sys σ Msg) (hu : runSched s sched' = some u) : sched'.length ≤ sched.length := by
-  obtain ⟨_, _, h⟩ := random_descent t ht s sched hr sched' u hu
+theorem terminates (t : Sys σ Msg) (ht : Finished t) (s : Sys σ Msg) (sched : List Nat) (hr : runSched cap s sched = some t)
+    (sched' : List Nat) (u : Sys σ Msg) (hu : runSched cap s sched' = some u) : sched'.length ≤ sched.length := by
+  obtain ⟨_, _, h⟩ := random_descent cap t ht s sched hr sched' u hu
   omega
 
 /-- **no deadlock**: every reachable state is either the finished one or has an enabled process -/
-theorem no_deadlock (t : Sys σ Msg) (ht : Finished t) (s : Sys σ Msg) (sched : List Nat) (hr : runSched s sched = some t)
-    (sched' : List Nat) (u : Sys σ Msg) (hu : runSched s sched' = some u) :
-    u = t ∨ ∃ i u', stepP u i = some u' := by
-  obtain ⟨sched'', h1, _⟩ := random_descent t ht s sched hr sched' u hu
+theorem no_deadlock (t : Sys σ Msg) (ht : Finished t) (s : Sys σ Msg) (sched : List Nat) (hr : runSched cap s sched = some t)
+    (sched' : List Nat) (u : Sys σ Msg) (hu : runSched cap s sched' = some u) :
+    u = t ∨ ∃ i u', stepP cap u i = some u' := by
+  obtain ⟨sched'', h1, _⟩ := random_descent cap t ht s sched hr sched' u hu
   cases sched'' with
   | nil => left; simpa [runSched] using h1
   | cons i rest =>
     right
     simp only [runSched] at h1
-    cases hs : stepP u i with
+    cases hs : stepP cap u i with
     | none => simp [hs] at h1
     | some u' => exact ⟨i, u', hs⟩
 
 /-- **schedule independence**: every maximal execution — under every interleaving — ends in `t` -/
-theorem schedule_independent (t : Sys σ Msg) (ht : Finished t) (s : Sys σ Msg) (sched : List Nat) (hr : runSched s sched = some t)
-    (sched' : List Nat) (u : Sys σ Msg) (hu : runSched s sched' = some u) (hmax : ∀ i, stepP u i = none) : u = t := by
-  rcases no_deadlock t ht s sched hr sched' u hu with h | ⟨i, u', h⟩
+theorem schedule_independent (t : Sys σ Msg) (ht : Finished t) (s : Sys σ Msg) (sched : List Nat) (hr : runSched cap s sched = some t)
+    (sched' : List Nat) (u : Sys σ Msg) (hu : runSched cap s sched' = some u) (hmax : ∀ i, stepP cap u i = none) : u = t := by
+  rcases no_deadlock cap t ht s sched hr sched' u hu with h | ⟨i, u', h⟩
   · exact h
   · rw [hmax i] at h; exact absurd h (by simp)
 
 /-- the three statements for the projections of any well-formed choreography: every interleaving of
     the processes terminates, never deadlocks, and ends with the sequential result and empty channels -/
 theorem choreography_all_interleavings (G : List (GEv σ Msg)) (hw : WellFormed G) (st : Nat → σ)
-    (sched' : List Nat) (u : Sys σ Msg) (hu : runSched (initSys G st) sched' = some u) :
+    (sched' : List Nat) (u : Sys σ Msg) (hu : runSched cap (initSys G st) sched' = some u) :
     sched'.length ≤ (canonicalSched G).length ∧
-    (u = doneSys (seqRun G st) ∨ ∃ i u', stepP u i = some u') ∧
-    ((∀ i, stepP u i = none) → u = doneSys (seqRun G st)) := by
+    (u = doneSys (seqRun G st) ∨ ∃ i u', stepP cap u i = some u') ∧
+    ((∀ i, stepP cap u i = none) → u = doneSys (seqRun G st)) := by
   have hfin : Finished (doneSys (seqRun G st) : Sys σ Msg) := fun _ => rfl
-  have hc := canonical_complete G hw st
-  exact ⟨terminates _ hfin _ _ hc _ _ hu, no_deadlock _ hfin _ _ hc _ _ hu,
-    schedule_independent _ hfin _ _ hc _ _ hu⟩
+  have hc := canonical_complete cap G hw st
+  exact ⟨terminates cap _ hfin _ _ hc _ _ hu, no_deadlock cap _ hfin _ _ hc _ _ hu,
+    schedule_independent cap _ hfin _ _ hc _ _ hu⟩
 
 end Async
 end HmcVerif
